@@ -136,7 +136,7 @@ func (e *Exec) constrainLeaf(s *State, n *Node, t types.Type, sortS string) {
 			return
 		}
 		switch t.Underlying().(type) {
-		case *types.Pointer, *types.Map, *types.Chan, *types.Signature:
+		case *types.Pointer, *types.Map, *types.Chan:
 			s.assume(And(App("<=", "Bool", IntLit(0), n), App("<", "Bool", n, e.allocTerm(s))))
 		}
 		return
